@@ -92,6 +92,7 @@ class Ctx:
         self.t0 = time.time()
         budget = {'quick': 150, 'thorough': 2400}[tier]
         self.deadline = self.t0 + float(os.environ.get('VERIF_DEADLINE_S', budget))
+        DEADLINE[0] = self.deadline
         self.coverage = {}
         self.assumptions = []
         self.violations = {}      # fingerprint -> list[Violation] (first few)
@@ -138,6 +139,8 @@ class Ctx:
     # ------------------------------------------------------------------
     def finish(self):
         """Write evidence, print verdict lines, return exit code."""
+        if CUT[0] and self.exhaustive:
+            self.incomplete('deadline reached: some tasks of the enumeration were not started')
         known = load_known_findings()
         kf = known_fingerprints(self.pid)
         exit_code = 0
@@ -254,25 +257,59 @@ def _init_worker():
     atexit.register(_worker_cleanup)
 
 
+DEADLINE = [None]     # set by Ctx: no new task is handed to a worker after this time
+CUT = [False]         # a pool withheld tasks because the deadline had passed: the run cannot claim to be exhaustive
+
+
 class Pool:
+    """Worker pool.  Tasks are fed to the workers lazily (at most 2 per worker outstanding), never after the run's
+    deadline and never after cancel(); the pool is always shut down by close()+join(), never by terminate() —
+    multiprocessing.Pool.terminate() can dead-lock against its own feeder thread, which would hang a check."""
+
     def __init__(self, n=None):
+        import threading
         self.n = n or NWORKERS
         self.pool = mp.get_context('fork').Pool(self.n, initializer=_init_worker)
+        self.stop = False
+        self.cut = False          # True if tasks were withheld because of the deadline / cancel()
+        self._threading = threading
+        self._sems = []
 
     def imap(self, fn, tasks, chunksize=1):
         """Unordered map; yields results. Raises on harness-internal errors."""
-        for r in self.pool.imap_unordered(_call, ((fn, t) for t in tasks), chunksize):
+        sem = self._threading.Semaphore(self.n * 2 * chunksize)
+        self._sems.append(sem)
+
+        def feed():
+            for t in tasks:
+                sem.acquire()
+                if self.stop:
+                    self.cut = True
+                    return
+                if DEADLINE[0] is not None and time.time() > DEADLINE[0]:
+                    self.cut = True
+                    CUT[0] = True
+                    return
+                yield (fn, t)
+        for r in self.pool.imap_unordered(_call, feed(), chunksize):
+            sem.release()
             if isinstance(r, dict) and '__error__' in r:
+                self.cancel()
                 raise RuntimeError('worker error on %s:\n%s' % (r['task'], r['__error__']))
             yield r
 
+    def cancel(self):
+        """Stop handing out tasks (tasks already running finish)."""
+        self.stop = True
+        for sem in self._sems:
+            for _ in range(self.n * 64):
+                sem.release()
+
     def close(self):
         # run cleanup in every worker so harness subprocesses and run dirs go away
-        try:
-            self.pool.close()
-            self.pool.join()
-        except Exception:
-            self.pool.terminate()
+        self.cancel()
+        self.pool.close()
+        self.pool.join()
 
 
 def crash_violation(e: HarnessDied, case, clause='crash'):
